@@ -82,6 +82,12 @@ type-checks.  (Adapted from harness/c11/translate.py: the term language, decisio
   RequestParamPredicate.__call__ (observer): self.reqs -> reqs : list (key, optional value), loop target `k, v` = fst / snd ;
     request.params.get(k) -> params_get params k : option text (WebOb: the LAST value of the key, None when absent) ;
     a != v (v an optional str) -> negb (is_remainder a v), i.e. "v is a str equal to a" negated ; both optional -> otext_eqb
+  HeaderPredicate.__call__ (observer): self.val -> reqs : list hreq, loop target `name, val, _` = the three components ;
+    name in request.headers -> hdr_mem headers name ; request.headers.get(name) -> hdr_get headers name : option text
+    (WebOb EnvironHeaders: key HTTP_ + upper-cased name with '-' -> '_') ; val.match(value) is None -> negb (re_match O val value)
+    (val a compiled regex of the modelled sublanguage: prefix match, greedy with backtracking)
+  RequestMethodPredicate.__call__ (observer): request.method -> method ; self.val -> val : list text ; a in l -> mem_text a l
+  XHRPredicate.__call__ (observer): request.is_xhr -> xhr ; self.val -> val ; bool(a) is b -> Bool.eqb a b
   connect parameters by position    name -> d_name d, pattern -> d_src d, predicates -> d_preds d, static -> d_static d (bool)
   return route (connect)            connected m        a failing Route(..)  ->  connect_failed m e
 """
@@ -95,6 +101,8 @@ FALLBACK = os.path.join(HERE, 'gen_fallback.json')
 SELFCFG, NONE = 'self (configurator)', 'None'
 MDICTOWN, GROUPS, ITEMS, PAIR, MATCHFN = ('match dict (own)', 'match object', 'items of groupdict', 'pair of str', 'compiled match')
 SELFP, REQS, PAIRO = 'self (request_param predicate)', 'list of (key, optional value)', 'pair of str and optional str'
+SELFH, HREQS, TRIPLE, REGEX, SELFX = ('self (header predicate)', 'list of (name, optional compiled regex, optional str)',
+                                      'header requirement', 'compiled regex', 'self (xhr predicate)')
 TEXT, SEGS, SEGSOWN, BOOL, ERASED, REQ, SELFM, SELFR, ROUTE, ROUTES, PREDS, MDICT, PAT, GEN, INFO, INFONONE, EXCV = (
     'str', 'tuple of str', 'list of str (own)', 'bool', 'erased', 'request', 'self (mapper)', 'self (route)', 'route',
     'list of routes', 'predicates', 'match dict', 'compiled matcher', 'generator', 'info dict', 'empty info dict',
@@ -111,8 +119,8 @@ def RES(t):
 
 COQTY = {TEXT: 'text', SEGS: 'list text', SEGSOWN: 'list text', BOOL: 'bool', ROUTE: 'route', ROUTES: 'list route',
          PREDS: 'list pred', MDICT: 'matchdict', PAT: 'pat', MDICTOWN: 'matchdict', PAIR: 'text * text',
-         PAIRO: 'text * option text'}
-ELEM = {SEGS: TEXT, SEGSOWN: TEXT, ROUTES: ROUTE, ITEMS: PAIR, REQS: PAIRO}
+         PAIRO: 'text * option text', TRIPLE: 'hreq', REGEX: 'list hre'}
+ELEM = {SEGS: TEXT, SEGSOWN: TEXT, ROUTES: ROUTE, ITEMS: PAIR, REQS: PAIRO, HREQS: TRIPLE}
 
 
 class Problem(Exception):
@@ -369,6 +377,15 @@ FUNCS = [
     dict(file='pyramid/predicates.py', qual='RequestParamPredicate.__call__', gen='gen_param_call', kind='observer', ret=BOOL,
          params=[(None, SELFP), (None, ERASED), (None, REQ)],
          sig='(reqs : list (text * option text)) (params : list (text * text)) : bool', coqret='bool', default='true'),
+    dict(file='pyramid/predicates.py', qual='HeaderPredicate.__call__', gen='gen_header_call', kind='observer', ret=BOOL,
+         params=[(None, SELFH), (None, ERASED), (None, REQ)],
+         sig='(O : oracle) (reqs : list hreq) (headers : list (text * text)) : bool', coqret='bool', default='true'),
+    dict(file='pyramid/predicates.py', qual='XHRPredicate.__call__', gen='gen_xhr_call', kind='observer', ret=BOOL,
+         params=[(None, SELFX), (None, ERASED), (None, REQ)],
+         sig='(val : bool) (xhr : bool) : bool', coqret='bool', default='true'),
+    dict(file='pyramid/predicates.py', qual='RequestMethodPredicate.__call__', gen='gen_method_call', kind='observer', ret=BOOL,
+         params=[(None, 'self (request_method predicate)'), (None, ERASED), (None, REQ)],
+         sig='(val : list text) (method : text) : bool', coqret='bool', default='true'),
     dict(file='pyramid/urldispatch.py', qual='RoutesMapper.__call__', gen='gen_call', kind='call', ret='call',
          params=[(None, SELFM), (None, REQ)],
          sig='(mt : pat -> text -> option matchdict) (m : mapper) (method : text) (raw : option text) : tracedout',
@@ -410,7 +427,8 @@ TRANSLATED = ['pyramid/urldispatch.py:RoutesMapper.__call__', 'pyramid/urldispat
               'pyramid/urldispatch.py:RoutesMapper.get_route',
               'pyramid/urldispatch.py:Route.__init__', 'pyramid/urldispatch.py:_compile_route.matcher',
               'pyramid/traversal.py:split_path_info', 'pyramid/traversal.py:decode_path_info',
-              'pyramid/predicates.py:RequestParamPredicate.__call__',
+              'pyramid/predicates.py:RequestParamPredicate.__call__', 'pyramid/predicates.py:HeaderPredicate.__call__',
+              'pyramid/predicates.py:XHRPredicate.__call__', 'pyramid/predicates.py:RequestMethodPredicate.__call__',
               'pyramid/config/routes.py:RoutesConfiguratorMixin.add_route',
               'pyramid/config/routes.py:RoutesConfiguratorMixin.route_prefix_context']
 MAPPER_ATTRS = {'routelist': ('routelist', 'set_routelist', ROUTES), 'static_routes': ('statics', 'set_statics', ROUTES),
@@ -769,13 +787,15 @@ class Tr:
             raise Problem('loop over a %s: %s' % (itty, u(s.iter)))
         pair = isinstance(s.target, ast.Tuple) and ELEM[itty] in (PAIR, PAIRO) and len(s.target.elts) == 2 \
             and all(isinstance(e, ast.Name) for e in s.target.elts) and s.target.elts[0].id != s.target.elts[1].id
-        if not isinstance(s.target, ast.Name) and not pair:
+        triple = isinstance(s.target, ast.Tuple) and ELEM[itty] == TRIPLE and len(s.target.elts) == 3 \
+            and all(isinstance(e, ast.Name) for e in s.target.elts) and len(set(e.id for e in s.target.elts)) == 3
+        if not isinstance(s.target, ast.Name) and not pair and not triple:
             raise Problem('loop target outside the subset: %s' % u(s.target))
         self.nloops += 1
         lp = Loop(self.nloops, ELEM[itty], self.spec['coqret'])
-        lp.x = 'x_%s_%d' % ('kv' if pair else _ident(s.target.id), lp.n)
-        tname = None if pair else s.target.id
-        tnames = [e.id for e in s.target.elts] if pair else [tname]
+        lp.x = 'x_%s_%d' % ('kv' if pair else 'req' if triple else _ident(s.target.id), lp.n)
+        tname = None if (pair or triple) else s.target.id
+        tnames = [e.id for e in s.target.elts] if (pair or triple) else [tname]
         occurs, assigned = [], []
         for st in s.body:
             for n in ast.walk(st):
@@ -827,7 +847,11 @@ class Tr:
         def k_break(env2, facts2):
             return k_rest(after(env2), {})
         env_body = dict(env_head)
-        if pair:
+        if triple:
+            env_body[tnames[0]] = (A('fst', [A('fst', [V(lp.x)])]), TEXT)
+            env_body[tnames[1]] = (A('snd', [A('fst', [V(lp.x)])]), OPT(REGEX))
+            env_body[tnames[2]] = (A('snd', [V(lp.x)]), OPT(TEXT))
+        elif pair:
             env_body[tnames[0]] = (A('fst', [V(lp.x)]), TEXT)
             env_body[tnames[1]] = (A('snd', [V(lp.x)]), TEXT if ELEM[itty] == PAIR else OPT(TEXT))
         else:
@@ -841,7 +865,43 @@ class Tr:
         if isinstance(n, ast.UnaryOp) and isinstance(n.op, ast.Not):
             return ('not', self.cond(n.operand, env, facts))
         if isinstance(n, ast.BoolOp):
-            return ('and' if isinstance(n.op, ast.And) else 'or', [self.cond(v, env, facts) for v in n.values])
+            # operands are evaluated left to right: a later operand of `and` (`or`) runs only when the earlier ones were
+            # true (false), so it sees the Optional narrowings they establish (`x is None or f(x)`, `v is not None and a != v`)
+            pol = isinstance(n.op, ast.And)
+            cur, out = dict(env), []
+            for v in n.values:
+                c = self.cond(v, cur, facts)
+                out.append(c)
+                for (cnd, p) in narrowings(c, pol, []):
+                    if p:
+                        cnd[3](cur, V(cnd[2]))
+            return ('and' if pol else 'or', out)
+        if isinstance(n, ast.Compare) and len(n.ops) == 1 and isinstance(n.ops[0], (ast.Is, ast.IsNot)) \
+                and isinstance(n.comparators[0], ast.Constant) and n.comparators[0].value is None \
+                and isinstance(n.left, ast.Call) and isinstance(n.left.func, ast.Attribute) and n.left.func.attr == 'match' \
+                and len(n.left.args) == 1 and not n.left.keywords and isinstance(n.left.func.value, ast.Name) \
+                and env.get(n.left.func.value.id, (0, 0))[1] == REGEX:
+            aobj, aty = self.expr(n.left.args[0], env, facts)
+            if aty != TEXT:
+                raise Problem('regex .match of a %s: %s' % (aty, u(n)))
+            c = ('atom', A('re_match', [V('O'), env[n.left.func.value.id][0], aobj]))
+            return c if isinstance(n.ops[0], ast.IsNot) else ('not', c)
+        if isinstance(n, ast.Compare) and len(n.ops) == 1 and isinstance(n.ops[0], (ast.Is, ast.IsNot)) \
+                and not isinstance(n.comparators[0], ast.Constant) and self.spec['gen'] == 'gen_xhr_call':
+            lobj, lty = self.expr(n.left, env, facts)
+            robj, rty = self.expr(n.comparators[0], env, facts)
+            if lty == BOOL and rty == BOOL:
+                c = ('atom', A('Bool.eqb', [b_term(lobj), b_term(robj)]))
+                return c if isinstance(n.ops[0], ast.Is) else ('not', c)
+            raise Problem('`is` between a %s and a %s: %s' % (lty, rty, u(n)))
+        if isinstance(n, ast.Compare) and len(n.ops) == 1 and isinstance(n.ops[0], (ast.In, ast.NotIn)) \
+                and isinstance(n.comparators[0], ast.Attribute) and n.comparators[0].attr == 'headers' \
+                and isinstance(n.comparators[0].value, ast.Name) and env.get(n.comparators[0].value.id, (0, 0))[1] == REQ:
+            lobj, lty = self.expr(n.left, env, facts)
+            if lty != TEXT:
+                raise Problem('`in request.headers` of a %s: %s' % (lty, u(n)))
+            c = ('atom', A('hdr_mem', [V('headers'), lobj]))
+            return ('not', c) if isinstance(n.ops[0], ast.NotIn) else c
         if isinstance(n, ast.Compare) and len(n.ops) == 1 and isinstance(n.ops[0], (ast.Is, ast.IsNot)) \
                 and isinstance(n.comparators[0], ast.Constant) and n.comparators[0].value is None:
             if not isinstance(n.left, ast.Name) or n.left.id not in env:
@@ -873,6 +933,8 @@ class Tr:
                 c = ('opt', A('assoc_get', [robj, lobj]), b, narrow)
             elif rty == ROUTES and lty == ROUTE:
                 c = ('atom', A('mem_id', [A('r_id', [lobj]), robj]))
+            elif rty == SEGS and lty == TEXT:
+                c = ('atom', A('mem_text', [lobj, robj]))
             else:
                 raise Problem('`in` between a %s and a %s is outside the table: %s' % (lty, rty, u(n)))
             return ('not', c) if isinstance(n.ops[0], ast.NotIn) else c
@@ -964,6 +1026,16 @@ class Tr:
                 return A(getter, [env['$m'][0] if '$m' in env else V('m')]), ty
             if oty == SELFP and n.attr == 'reqs':
                 return V('reqs'), REQS
+            if oty == SELFH and n.attr == 'val':
+                return V('reqs'), HREQS
+            if oty == 'self (request_method predicate)' and n.attr == 'val':
+                return V('val'), SEGS
+            if oty == REQ and n.attr == 'method' and self.spec['gen'] == 'gen_method_call':
+                return V('method'), TEXT
+            if oty == SELFX and n.attr == 'val':
+                return ('atom', V('val')), BOOL
+            if oty == REQ and n.attr == 'is_xhr' and self.spec['gen'] == 'gen_xhr_call':
+                return ('atom', V('xhr')), BOOL
             if oty == ROUTE and n.attr == 'predicates':
                 return A('r_preds', [oobj]), PREDS
             if oty == REQ and n.attr == 'path_info':
@@ -1002,6 +1074,12 @@ class Tr:
             kobj, kty = self.expr(n.args[0], env, facts)
             if kty == TEXT:
                 return A('params_get', [V('params'), kobj]), OPT(TEXT)
+        if isinstance(f, ast.Attribute) and f.attr == 'get' and len(n.args) == 1 and isinstance(f.value, ast.Attribute) \
+                and f.value.attr == 'headers' and isinstance(f.value.value, ast.Name) \
+                and env.get(f.value.value.id, (0, 0))[1] == REQ:
+            kobj, kty = self.expr(n.args[0], env, facts)
+            if kty == TEXT:
+                return A('hdr_get', [V('headers'), kobj]), OPT(TEXT)
         if isinstance(f, ast.Attribute) and f.attr == 'items' and not n.args and isinstance(f.value, ast.Call) \
                 and isinstance(f.value.func, ast.Attribute) and f.value.func.attr == 'groupdict' and not f.value.args \
                 and not f.value.keywords:
@@ -1095,7 +1173,8 @@ WANT = {'pyramid/urldispatch.py': {'Route': ['class'], '_compile_route': ['def']
                                    'split_path_info': ['from pyramid.traversal import split_path_info'],
                                    'RoutesMapper': ['class']},
         'pyramid/config/routes.py': {'RoutesConfiguratorMixin': ['class'], 'urlparse': ['from urllib.parse import urlparse']},
-        'pyramid/predicates.py': {'RequestParamPredicate': ['class']},
+        'pyramid/predicates.py': {'RequestParamPredicate': ['class'], 'HeaderPredicate': ['class'], 'XHRPredicate': ['class'],
+                                  'RequestMethodPredicate': ['class']},
         'pyramid/traversal.py': {'split_path_info': ['def'], 'decode_path_info': ['def'],
                                  'lru_cache': ['from functools import lru_cache']}}
 BUILTINS = ('all', 'tuple', 'bool', 'KeyError', 'UnicodeDecodeError')
